@@ -563,6 +563,8 @@ def run(rep: Report, prog: Program, tier: str) -> None:
     # a reliable message that inherits another channel's lifetime / retransmission limit is abandoned at the first loss and never delivered
     from .C13life import run_policy
     run_policy(rep, prog, PROP, "C02-POLICY")
+    from .sctpsetup import setup_rule
+    setup_rule(rep, prog, PROP, "C02-SETUP")
 
 
 def leak_rule(rep: Report, prog: Program, PROP: str, RULE: str, tier: str) -> None:
